@@ -226,6 +226,26 @@ def gNext (cfg : Cfg) (ps : PS) (g : Ghost) (r : Req) : Ghost :=
   else if goodM3 cfg ps r then ⟨g.exch, reqA r⟩
   else g
 
+/-- the accessory issues its proof exactly for good M3s (any state, any request) -/
+theorem goodM3_eq_isO1 (cfg : Cfg) (ps : PS) (r : Req) : goodM3 cfg ps r = isO1 (step cfg ps r).2.1 := by
+  cases step_shape cfg ps r with
+  | noop hs h1 h2 hm hg => rw [h1, hg]
+  | m1 srv hs hv hm h1 h2 hg => rw [h1, hg]
+  | m3 srv hs hv h1 h2 hm => rw [h1]
+  | m5 hver hs h2 h1 hm hg => rw [h1, hg]
+
+/-- `gNext` from the answer already computed (what the line-protocol driver evaluates) -/
+def gNextOut (ps : PS) (g : Ghost) (r : Req) (o : Out) : Ghost :=
+  if isM2 o then ⟨some ⟨ps.pincode, r.salt, bytesToNat r.bRand⟩, none⟩
+  else if isO2 o then ⟨none, none⟩
+  else if isO1 o then ⟨g.exch, reqA r⟩
+  else g
+
+theorem gNext_eq_out (cfg : Cfg) (ps : PS) (g : Ghost) (r : Req) :
+    gNext cfg ps g r = gNextOut ps g r (step cfg ps r).2.1 := by
+  unfold gNext gNextOut
+  rw [goodM3_eq_isO1]
+
 /-- the code's state agrees with the ghost: the verifier in force is the one of the ghost exchange, and
     a recorded success means the session in force is the one of the ghost's demonstrating `A` -/
 structure GInv (cfg : Cfg) (ps : PS) (g : Ghost) : Prop where
